@@ -215,12 +215,22 @@ fn changes_record<T: DiffableStr + ?Sized>(
             .iter()
             .flat_map(|op| diff.iter_changes(op).map(|c| cj(&c)).collect::<Vec<_>>())
             .collect();
-        Some((all, per, diff.old_slices().len(), diff.new_slices().len()))
+        // beyond the listed properties: what a change shows (Display, to_string_lossy, the
+        // missing-newline flag, the tag character) for every change
+        let shown: Vec<Value> = diff
+            .iter_all_changes()
+            .map(|c| {
+                json!([bytes_json(c.to_string().as_bytes()), bytes_json(c.to_string_lossy().as_bytes()), c.missing_newline(),
+                       bytes_json(c.tag().to_string().as_bytes())])
+            })
+            .collect();
+        Some((all, per, diff.old_slices().len(), diff.new_slices().len(), shown))
     });
     match r {
-        Some(Some((all, per, no, nn))) => json!({"ev":"textchanges","case":case,"alg":alg_name(alg),"kind":kind,"mode":mode,
+        Some(Some((all, per, no, nn, shown))) => json!({"ev":"textchanges","case":case,"alg":alg_name(alg),"kind":kind,"mode":mode,
             "old":bytes_json(old.as_bytes()),"new":bytes_json(new.as_bytes()),"panic":false,
-            "all":all,"per_op":per,"ntok_old":no,"ntok_new":nn}),
+            "all":all,"per_op":per,"ntok_old":no,"ntok_new":nn,"shown":shown,
+            "utf8": std::str::from_utf8(old.as_bytes()).is_ok() && std::str::from_utf8(new.as_bytes()).is_ok()}),
         _ => json!({"ev":"textchanges","case":case,"alg":alg_name(alg),"kind":kind,"mode":mode,
             "old":bytes_json(old.as_bytes()),"new":bytes_json(new.as_bytes()),"panic":true,
             "all":[],"per_op":[],"ntok_old":0,"ntok_new":0}),
